@@ -284,6 +284,59 @@ pub fn run(ctx: &Ctx) -> i32 {
     }
 
     // indexed files whose palette reaches past index 255 (ids that alias modulo 256)
+    // large pixel buffers with ONE absent index at every interesting position (first, middle, each of the last 9)
+    if ctx.wants_family("large-buffers") {
+        let shapes: [(u16, u16); 10] = [(15, 17), (16, 16), (17, 17), (19, 15), (33, 9), (31, 31), (32, 32), (257, 1), (1, 263), (64, 65)];
+        let mut cases: Vec<(usize, usize, usize)> = Vec::new();
+        for sh in 0..shapes.len() {
+            for carrier in 0..3usize {
+                for pos in 0..12usize {
+                    cases.push((sh, carrier, pos));
+                }
+            }
+        }
+        ctx.family("large-buffers", cases.len() as u64, "indexed buffers of 255 .. 4160 pixels (shapes whose pixel count is and is not a multiple of 8 / 16 / 64) in a raw cel / compressed cel / tileset, all pixels inside a 16-entry palette except ONE pixel of value 16 placed first / in the middle / at each of the last 9 positions, plus a control without it: load fails iff the absent index is there", true);
+        cases.par_iter().for_each(|(sh, carrier, pos)| {
+            let (w, h) = shapes[*sh];
+            let n = w as usize * h as usize;
+            let case = || format!("{}x{} carrier={} bad-position={}", w, h, ["raw cel", "zlib cel", "tileset"][*carrier], if *pos == 11 { "none".to_string() } else { pos.to_string() });
+            if !ctx.wants("large-buffers", &case) {
+                return;
+            }
+            let fmt = Fmt::Indexed(0);
+            let mut px: Vec<u8> = (0..n).map(|i| (i * 7 % 16) as u8).collect();
+            let at = match *pos {
+                0 => Some(0),
+                1 => Some(n / 2),
+                p if p <= 10 => Some(n - 1 - (p - 2)),
+                _ => None,
+            };
+            if let Some(a) = at {
+                px[a] = 16;
+            }
+            let mut f = gen::file(4, 4, &fmt, &[10]);
+            f.frames[0].push(new_palette(0, pal_entries(16, 2)));
+            f.frames[0].push(Body::Layer(Layer::image("l")));
+            match carrier {
+                0 => {
+                    f.frames[0].push(raw_cel(0, 0, 0, 255, w, h, px));
+                }
+                1 => {
+                    f.frames[0].push(zcel(0, 0, 0, 255, w, h, px, 6));
+                }
+                _ => {
+                    f.frames[0].push(Body::Tileset(tileset(0, 1, w, h, px, "t")));
+                }
+            }
+            if at.is_some() {
+                expect_err(ctx, "large-buffers", &case, &f.encode(), "a pixel's index is not in the palette");
+            } else {
+                let mut w2 = Want::all();
+                w2.pal_probes = (0..18).collect();
+                conform(ctx, "large-buffers", &case, &f, &w2);
+            }
+        });
+    }
     if ctx.wants_family("alias-256") {
         let ranges: [(u32, usize); 6] = [(3, 256), (250, 10), (256, 45), (1, 300), (255, 2), (200, 100)];
         let mut cases = Vec::new();
